@@ -61,10 +61,11 @@ CLAIMED = {
         text="coq/stop: Engine.Stop, the open-connection wait group and the Async queue as a transition system over connection ids. Theorems for every history: the wait group equals "
              "(1 until Stop's Done) + connections whose close callback has not completed; when Stop's wait returns every connection has been notified; without an accept after the snapshot "
              "a fair Async drainer brings the wait group to zero within `measure` jobs (Stop returns); with such a late accept it can hang (refutation witness = finding D11). "
+             "The accept hand-over of nbhttp racing with Stop (coq/stop/AcceptStop.v: listen loop, listener mux, AddConn*, closeAllConns as three goroutines over one connection, every interleaving): c18_accept_handover_closed (no final state forgets an accepted connection, with and without the mux) and the refutations c18_accept_handover_old_refuted / _half_refuted of the code before the repairs D52/D53 and between them. "
              "Tie to the code: an executable checker of observed event logs (open / close notification / Stop called / Stop returned), proved to accept every projection of a model run, is extracted "
              "and run on the logs of real engines in every history; the implementation-side oracle checks that Stop/Shutdown return under a watchdog, #OnClose = #OnOpen(+dial), every peer connection "
              "is closed, goroutines and descriptors return to their pre-Start level, for the core engine and nbhttp (3 epoll modes x IOMods x Stop/Shutdown, incl. an injected Accept error).",
-        note="Partial: termination is proved relative to a fair Async drainer and the absence of a late accept (D11, not reproduced on the real engine: the core listener cannot be scripted); goroutine/fd release and the "
+        note="Partial: termination is proved relative to a fair Async drainer and the absence of a late accept on the core engine (D11; on the nbhttp engine the late accept was reproduced and repaired: D52/D53, and is now a theorem of the hand-over model, which is tied to the code by the harness histories only); goroutine/fd release and the "
              "nbhttp hooks are observed, not proved. Trusted: Coq kernel, extraction, harness.",
         design="4/C18"),
     "C20": dict(
